@@ -262,7 +262,11 @@ func (c *Ctx) execCall(s *State, in ssa.Instruction, cc *ssa.CallCommon, res ssa
 	var r Value
 	if res != nil {
 		c.paramMode = true
-		r = c.freshValue(s, res.Type(), "ret|"+shortName(name))
+		hint := "opq|"
+		if benignOpaque(name) {
+			hint = "ret|" // results that only feed logging / error texts
+		}
+		r = c.freshValue(s, res.Type(), hint+shortName(name))
 		c.paramMode = false
 		// results of opaque calls are at least as old as "now"
 		s.clock++
@@ -382,7 +386,7 @@ func (c *Ctx) applyContract(s *State, in ssa.Instruction, fc *FuncContract, call
 		c.oblige(s, "guard", name, Or(alts...), pos, "callee "+fc.Key+" requires the caller to hold "+h.Src, []string{"C19"})
 	}
 	for i, rq := range fc.Requires {
-		g := env.evalBool(rq.Expr)
+		g := env.evalRequires(rq.Expr, callee)
 		c.reportEvalErrors(env, fc, rq.Src)
 		name := fmt.Sprintf("%s/requires@%s#%d:%s[%d]", fnKey(in.Parent()), otag(in), c.ordinal("requires", in), shortName(fc.Key), i+1)
 		props := rq.Props
@@ -814,7 +818,7 @@ func (c *Ctx) execGo(s *State, x *ssa.Go) {
 			}
 		}
 		for i, rq := range fc.Requires {
-			g := env.evalBool(rq.Expr)
+			g := env.evalRequires(rq.Expr, callee)
 			c.reportEvalErrors(env, fc, rq.Src)
 			nm := fmt.Sprintf("%s/requires#%d:go:%s[%d]", fnKey(x.Parent()), c.ordinal("requires", x), shortName(fc.Key), i+1)
 			props := rq.Props
@@ -1025,4 +1029,15 @@ func (c *Ctx) bindFreeVars(env *Env, callee *ssa.Function, binds []Value) {
 			env.addrVars[fv.Name()] = tv{binds[i], fv.Type()}
 		}
 	}
+}
+
+// benignOpaque: un-contracted callees whose results only feed log records and error texts; branching
+// on them (e.g. "is debug logging enabled") does not make a refutation depend on unmodelled behaviour.
+func benignOpaque(name string) bool {
+	for _, p := range []string{"slog.", "log.", "fmt.Sprint", "fmt.Errorf", "errors.New", "fmt.Fprint"} {
+		if strings.HasPrefix(shortName(name), p) || strings.HasPrefix(name, p) {
+			return true
+		}
+	}
+	return false
 }
